@@ -201,7 +201,8 @@ func (s *JSchema) UsedUserTypes() ([]string, error) {
 	if err := s.load(); err != nil {
 		return nil, err
 	}
-	return s.UserTypesNamesUsed.Data(), nil
+	// the caller gets a list of its own, not the memory of the set
+	return append([]string(nil), s.UserTypesNamesUsed.Data()...), nil
 }
 
 func (s *JSchema) load() error {
